@@ -473,6 +473,14 @@ example :
     v.header.vals [67, 111, 110, 116, 101, 110, 116, 45, 84, 121, 112, 101] = [[112]] ∧
     v.header.vals sServer = [] := by decide
 
+/-- test: a block with ONLY a downstream replacement (no plain rule): `Location: internal/x` is
+rewritten to `public/x` (Location = 76 111 99 97 116 105 111 110) -/
+example :
+    (respond hop skip id [] [([108, 111, 99, 97, 116, 105, 111, 110],
+        [([105, 110, 116, 101, 114, 110, 97, 108], [112, 117, 98, 108, 105, 99])])] []
+      { exampleResponse with header := ([76, 111, 99, 97, 116, 105, 111, 110], [[105, 110, 116, 101, 114, 110, 97, 108, 47, 120]]) :: exampleResponse.header }).header.vals
+      [76, 111, 99, 97, 116, 105, 111, 110] = [[112, 117, 98, 108, 105, 99, 47, 120]] := by decide
+
 /-- test: one announced trailer (X-Sum) and one unannounced (Grpc-Status) -/
 def exampleTrailerResponse : Response :=
   { exampleResponse with
